@@ -16,7 +16,9 @@ BOUNDS = ("Inductive step of I7 (every public state property that the emitted pr
           "state (5) x coolant (3) [quick: 2 machine states for non-tool calls] x distance mode. "
           "Solver over: numeric and integer arguments (reals, NaN, +-inf), pre-state feed rate, "
           "tool power, remembered E parameter, target temperatures, current tool number. "
-          "Compared after the call (also when it raised): tool active + start code + power while "
+          "Plus TRUE histories from a freshly constructed builder (no private pre-state, no "
+          "invariant assumed): every pair and every triple over an 11-call core alphabet (thorough: every triple) of 22 calls "
+          "with symbolic values, compared after every call. Compared after the call (also when it raised): tool active + start code + power while "
           "active, coolant mode, tool number, feed rate, distance/extrusion/feed mode, units, "
           "plane, target temperatures, every remembered non-axis move parameter.")
 ASSUMPTIONS = [
@@ -151,8 +153,93 @@ def _make(step, tool, coolant, rel):
     return h
 
 
+HIST = {
+    "move(x)": lambda g, a: g.move(x=a),
+    "move(y,F)": lambda g, a: g.move(y=1.5, F=a),
+    "move(z,S)": lambda g, a: g.move(z=-2.5, S=a),
+    "rapid(x)": lambda g, a: g.rapid(x=a),
+    "move(x,E)": lambda g, a: g.move(x=3.5, E=a),
+    "set_axis(E)": lambda g, a: g.set_axis(E=a),
+    "relative": lambda g, a: g.set_distance_mode("relative"),
+    "absolute": lambda g, a: g.set_distance_mode("absolute"),
+    "tool_on": lambda g, a: g.tool_on("cw", a),
+    "tool_off": lambda g, a: g.tool_off(),
+    "power_on": lambda g, a: g.power_on("dynamic", a),
+    "power_off": lambda g, a: g.power_off(),
+    "coolant_on": lambda g, a: g.coolant_on("flood"),
+    "coolant_off": lambda g, a: g.coolant_off(),
+    "set_feed_rate": lambda g, a: g.set_feed_rate(a),
+    "set_tool_power": lambda g, a: g.set_tool_power(a),
+    "halt(bed,S)": lambda g, a: g.halt("wait-for-bed", S=a),
+    "set_hotend": lambda g, a: g.set_hotend_temperature(a),
+    "tool_change": lambda g, a: g.tool_change("manual", 3),
+    "extrusion-rel": lambda g, a: g.set_extrusion_mode("relative"),
+    "probe(z,F)": lambda g, a: g.probe("towards", z=-1.0, F=a),
+    "emergency": lambda g, a: g.emergency_halt("stop"),
+}
+
+
+def _make_history(seq):
+    """A TRUE history from a freshly constructed builder (no private pre-state, so no invariant is
+    assumed): after every call, accepted or rejected, the state mirrors the program so far."""
+    from gscrib import GCodeBuilder
+    from ..fixture import Rec
+
+    def core(vals):
+        from ..shims import TOKENS
+        if MODE.symbolic:
+            TOKENS.clear()
+        g = GCodeBuilder(line_endings="\\n")
+        rec = Rec()
+        g.add_writer(rec)
+        m = RefMachine(tokens())
+        done = 0
+        for k, (name, a) in enumerate(zip(seq, vals)):
+            e = attempt(HIST[name], g, a)
+            if e is not None and exc_name(e) not in ("ValueError", "ToolStateError", "CoolantStateError"):
+                msg = f"{exc_name(e)}: {e}"
+                return V(f"history-unexpected-exception", lambda: f"{seq[:k + 1]}: {msg}")
+            try:
+                text = rec.text()
+                lines = split_lines(text)
+                for line in lines[done:]:
+                    m.run_line(line)
+                done = len(lines)
+            except Malformed as mf:
+                return V("history-malformed-output", str(mf))
+            v = compare(g, m, "history")
+            if v is not None:
+                inner = v
+                return V(inner.kind, lambda: inner.text() + f" | after {seq[:k + 1]} with values "
+                                             f"{vals[:k + 1]!r} (last call raised {exc_name(e)}); "
+                                             f"output={rec.text()!r}")
+        reached("accepted")
+        return None
+
+    if len(seq) == 2:
+        def h(a: Finite, b: Finite):
+            return core([a, b])
+    else:
+        def h(a: Finite, b: Finite, c: Finite):
+            return core([a, b, c])
+    return h
+
+
 def cells(tier):
     out = []
+    import itertools
+    names = list(HIST)
+    seqs = list(itertools.product(names, repeat=2))
+    core3 = ["move(y,F)", "move(z,S)", "move(x,E)", "set_axis(E)", "tool_on", "tool_off", "power_on",
+             "set_tool_power", "halt(bed,S)", "rapid(x)", "relative"]
+    if tier == "quick":
+        seqs += list(itertools.product(core3, repeat=3))
+    else:
+        seqs += list(itertools.product(names, repeat=3))
+    for seq in seqs:
+        out.append(Cell("history|" + ",".join(seq), _make_history(seq),
+                        budget_s=120 if tier == "quick" else 400, must_reach=("accepted",),
+                        entry="GCodeBuilder (history from a fresh builder)"))
     for step in STEPS:
         for tool in TOOLS:
             for coolant in COOLANTS:
